@@ -68,24 +68,40 @@ func reconnRun(in reconnInput) (ok bool, why string, served int) {
 
 func init() {
 	runners["RECONN"] = func(rng *rand.Rand, n int, tier string, emit func(Case)) {
+		var rin reconnInput
+		replay := loadReplay(&rin)
 		for i := 0; i < n; i++ {
 			in := reconnInput{Conns: 34 + rng.Intn(8), FPS: []int{60, 9, 30, 60}[i%4], Frames: 1 + rng.Intn(3)}
 			if tier == "thorough" {
 				in.Conns = 70
 			}
+			if replay {
+				in = rin
+			}
 			ok, why, served := reconnRun(in)
 			emit(Case{Coq: fmt.Sprintf("mkLag %s %d %d", coqBool(ok), 0, served), Input: in,
 				Impl: map[string]interface{}{"ok": ok, "why": why, "served": served},
 				Tags: []string{fmt.Sprintf("fps=%d", in.FPS), "reconnections"}, Nontriv: served >= 30, Key: fmt.Sprint("reconn", in.FPS, in.Conns, in.Frames)})
+			if replay {
+				return
+			}
 		}
 	}
 	runners["WRECONN"] = func(rng *rand.Rand, n int, tier string, emit func(Case)) {
 		for i := 0; i < n; i++ {
 			conns := 34 + rng.Intn(8)
 			fps := []int{60, 9, 30, 60}[i%4]
+			var wrin struct {
+				Connections int `json:"connections"`
+				FPS         int `json:"fps"`
+			}
+			wreplay := loadReplay(&wrin) && wrin.Connections > 0
 			if i%2 == 1 {
 				// more connections than the 256 frame buffers a connection circulates
 				conns = 258 + rng.Intn(10)
+			}
+			if wreplay {
+				conns, fps = wrin.Connections, wrin.FPS
 			}
 			var ins []wrInput
 			for k := 0; k < conns; k++ {
@@ -119,6 +135,9 @@ func init() {
 			emit(Case{Coq: fmt.Sprintf("mkLag %s %d %d", coqBool(ok), 0, len(fs)), Input: map[string]interface{}{"connections": conns, "fps": fps, "frames_per_connection": 2},
 				Impl: map[string]interface{}{"ok": ok, "why": why, "served": len(fs)},
 				Tags: []string{fmt.Sprintf("fps=%d", fps), "reconnections"}, Nontriv: len(fs) >= 30, Key: fmt.Sprint("wreconn", fps, conns)})
+			if wreplay {
+				return
+			}
 		}
 	}
 }
